@@ -21,6 +21,10 @@ from ..savepath import CASES, good_run, mk_task, recovery, tmpdir, value_of
 from ..universe import WORLD
 
 
+class SaveAborted(BaseException):
+    """Not an Exception: what a signal handler raising SystemExit, or a cancellation, looks like to the save path."""
+
+
 class _SaveGate:
     """Marks the dynamic extent of BaseCache.save (the code object of save itself is
     untouched, so its lines still produce LINE events)."""
@@ -49,7 +53,8 @@ class _SaveGate:
 
 def one_case(args):
     """args = (case, overwrite, kind, at, mode). kind: 'baseline' | 'op' | 'line' | 'natural'."""
-    case, overwrite, kind, at, mode = args
+    case, overwrite, kind, at, mode = args[:5]
+    same_lab = len(args) > 5 and args[5] == 'same-lab'
     silence_labtech()
     d = tmpdir('c12_')
     try:
@@ -73,13 +78,26 @@ def one_case(args):
                            defer_open=(at if kind == 'defer' else None))
         lab = labtech.Lab(storage=fs, runner_backend='serial', notebook=False, continue_on_failure=True)
         t = mk_task(case)
+        if same_lab:
+            # ONE Lab object for the whole history: it has seen (and loaded) the complete old entry
+            # before the overwrite fails, and it is the one asked afterwards
+            armed = (fs.at, fs.defer_open)
+            fs.at = fs.defer_open = None
+            seen = [lab.is_cached(mk_task(case)), len(lab.cached_tasks([type(t)])), len(lab.run_tasks([mk_task(case)], disable_progress=True, disable_top=True))]
+            if seen != [True, 1, 1]:
+                raise HarnessError(f'same-Lab preparation failed: {seen}')
+            fs.at, fs.defer_open = armed
+            fs.n = fs.opens = 0
+            fs.trace.clear()
+            WORLD.reset(epoch=2)
         inj = None
         outcome = None
         with _SaveGate() as gate:
             if kind in ('line', 'baseline'):
                 inj = LineInjector(in_files('cache.py', 'storage.py', 'serialization.py'),
                                    at=(at if kind == 'line' else None),
-                                   exc_factory=lambda: InjectedFault('injected fault at a line of the save path'),
+                                   exc_factory=((lambda: SaveAborted('the save was aborted by a BaseException that is not an Exception'))
+                                                if mode == 'base' else (lambda: InjectedFault('injected fault at a line of the save path'))),
                                    gate=lambda: gate.depth > 0)
                 with inj:
                     try:
@@ -113,6 +131,25 @@ def one_case(args):
         rec, reported_cached = recovery(d, case, ok)
         for key, msg in rec:
             viols.append((key, msg))
+        if same_lab:
+            # ask the very Lab object that performed the failed overwrite
+            fs.at = fs.defer_open = None
+            try:
+                c = bool(lab.is_cached(mk_task(case)))
+            except BaseException as e:  # noqa
+                c = False
+                viols.append(('is_cached-raised', f'[same Lab object] is_cached raised {type(e).__name__}: {e}'))
+            if c:
+                WORLD.reset(epoch=60)
+                t3 = mk_task(case)
+                try:
+                    r3 = lab.run_tasks([t3], disable_progress=True, disable_top=True)
+                    if t3 not in r3:
+                        viols.append(('reported-cached-but-unloadable', '[same Lab object that performed the failed overwrite] reports the task as cached but cannot load it'))
+                    elif not any(r3[t3] == v for v in ok) and not any(ev[0] == 'start' for ev in WORLD.log):
+                        viols.append(('reported-cached-but-wrong-value', '[same Lab object] loaded a wrong value'))
+                except BaseException as e:  # noqa
+                    viols.append(('reported-cached-but-run-raised', f'[same Lab object] run_tasks raised {type(e).__name__}: {e}'))
         if fired and outcome == ('return', True) and kind == 'natural':
             viols.append(('unserialisable-reported-ok', 'the result cannot be serialised but the task was reported as successful'))
         phase = 'overwrite' if overwrite else 'first-save'
@@ -125,11 +162,11 @@ def one_case(args):
 def run(tier: str, seed: int) -> Result:
     silence_labtech()
     if tier == 'quick':
-        inject_cases = ['pickle-small', 'json-small', 'pickle-multi']
+        inject_cases = ['pickle-small', 'json-small', 'pickle-multi', 'pickle-blob']
         natural = ['pickle-unpicklable0', 'pickle-unpicklable1', 'pickle-unpicklable-deep', 'json-unserialisable']
         modes = ('raise',)
     else:
-        inject_cases = ['pickle-small', 'json-small', 'pickle-multi', 'json-multi']
+        inject_cases = ['pickle-small', 'json-small', 'pickle-multi', 'pickle-blob', 'json-multi']
         natural = ['pickle-unpicklable0', 'pickle-unpicklable1', 'pickle-unpicklable-deep', 'json-unserialisable']
         modes = ('raise', 'partial')
     work = []
@@ -149,6 +186,13 @@ def run(tier: str, seed: int) -> Result:
                 work.append((case, ow, 'line', at, None))
             for at in range(1, b['opens'] + 1):
                 work.append((case, ow, 'defer', at, None))
+            if case in ('pickle-small', 'pickle-multi'):
+                # the save is aborted by a BaseException that is not an Exception (e.g. SystemExit raised by a signal handler)
+                for at in range(1, b['lines'] + 1):
+                    work.append((case, ow, 'line', at, 'base'))
+            if ow and case in ('pickle-small', 'json-small'):
+                for at in range(1, b['ops'] + 1):
+                    work.append((case, ow, 'op', at, 'raise', 'same-lab'))
     for case in natural:
         for ow in (False, True):
             work.append((case, ow, 'natural', None, None))
@@ -164,9 +208,9 @@ def run(tier: str, seed: int) -> Result:
     cov = {
         'evaluations': n,
         'distinct_nontrivial': fired,
-        'rule': ('one evaluation = one real serial-backend run with exactly one injected fault (storage operation #j: open / write call / close; a handle whose data is lost at close; or the '
-                 'k-th executed line of cache.py/storage.py/serialization.py inside BaseCache.save) or a result that cannot be serialised (fails before / after one / '
-                 'after many frames); x {PickleCache, JSON cache} x {small, multi-frame} x {first save, overwrite via bust_cache}; followed by the recovery '
+        'rule': ('one evaluation = one real serial-backend run with exactly one injected fault (storage operation #j: open / write call / close; a handle whose data is lost at close; the same single faults with ONE Lab object performing and then judging the failed overwrite; or the '
+                 'k-th executed line of cache.py/storage.py/serialization.py inside BaseCache.save, raising an OSError or a non-Exception BaseException) or a result that cannot be serialised (fails before / after one / '
+                 'after many frames); x {PickleCache, JSON cache} x {small, multi-frame, one large out-of-frame bytes object} x {first save, overwrite via bust_cache}; followed by the recovery '
                  'oracle on a fresh Lab (is_cached, cached_tasks, run_tasks); distinct_nontrivial = injections that actually fired'),
         'samples': [repr(w) for w in (work[0], work[len(work) // 2], work[-1])] + [
             {'baseline': k, 'storage_ops': v['ops'], 'line_events_in_save': v['lines']} for k, v in list(baselines.items())[:2]],
